@@ -397,6 +397,27 @@ func TestSpliceIssuedKeys(t *testing.T) {
 				}
 			}
 		}
+		// the salts of a long series of issued keys: with 15-bit random salts 1 200 keys collide about 22 times; a generator
+		// that repeats (a pool that is not refilled, a counter) makes cipher blocks of different keys interchangeable
+		salts := map[uint16]int{}
+		const series = 1200
+		for i := 0; i < series; i++ {
+			k, err := e.b.S.VerifKeygen().CreateKey(e.b.Master, "a/", security.AllowRead, time.Unix(0, 0))
+			if err != nil {
+				t.Fatal(err)
+			}
+			raw, derr := e.b.S.VerifKeygen().DecryptKey(k)
+			if derr != nil {
+				t.Fatal(derr)
+			}
+			salts[raw.Salt()]++
+		}
+		if len(salts) < series-120 {
+			c := map[string]interface{}{"license": v, "keys": series, "distinct-salts": len(salts)}
+			vkit.ReportFailure(t.Name(), c, fmt.Sprintf("license v%d: %d keys issued in a row carry only %d distinct salts (random 15-bit salts give about %d): salts repeat, so cipher blocks of different issued keys are interchangeable", v, series, len(salts), series-22), "")
+			t.Fatalf("salts repeat")
+		}
+		vkit.Record(t.Name(), map[string]interface{}{"license": v, "series": series}, vkit.OK(true, "salt-series"))
 		if equalSalt > 3 {
 			c := map[string]interface{}{"license": v, "pairs": n, "equal-salt-pairs": equalSalt}
 			vkit.ReportFailure(t.Name(), c, fmt.Sprintf("license v%d: %d of %d pairs of keys issued by the broker carry the same salt: salts are not per-key random, so cipher blocks of different keys are interchangeable", v, equalSalt, n), "")
